@@ -8,16 +8,19 @@ import opbase
 from idpyoidc.message.oidc import AuthorizationRequest
 from idpyoidc.server.scopes import SCOPE2CLAIMS
 
-RULE = ("cases: flows (code flow: ID token from the token endpoint + userinfo + JWT access token + introspection; id_token-only flow) on ONE "
+RULE = ("cases: flows (code flow: ID token from the token endpoint + userinfo + JWT access token + introspection by the owner, by another client and "
+        "by a client that opted out of audience enforcement, in every order; id_token-only flow; hybrid flows code id_token / id_token token / "
+        "code id_token token whose authorization-endpoint ID token is observed as well) on ONE "
         "long-lived provider, over configurations of the four release points (base_claims x add_claims_by_scope x enable_claims_per_client), "
         "three clients (no add_claims / per-client always+by_scope lists / narrower allowed_scopes), random scope sets and claims-parameter "
         "objects with null / essential / value / values requests for attributes the user has, lacks, matches or not. Released attribute set at "
         "each point compared with the Lean restriction/match model; oracle: released subset of the permitted upper bound and equal to the "
         "stored attribute; the same flow on a FRESH provider releases the same set (history independence). "
         "non-trivial: flow with a claims parameter, a per-client configuration, or preceded by an id_token-only flow of the same client")
-MODELLED = ("modelled: get_claims_from_request (base / always / by-scope / request claims with dict.update semantics), claims_match, get_user_claims. "
-            "At the interface: the per-client resolution in _client_claims and scopes_to_claims are computed by the harness from the "
-            "configuration it wrote (their aliasing behaviour is what the history-independence oracle watches)")
+MODELLED = ("modelled: get_claims_from_request (base / always / by-scope / request claims with dict.update semantics), _client_claims (which rules "
+            "apply: per-client or module, primary and secondary release point), the as_if=userinfo decision of the authorization endpoint, "
+            "claims_match, get_user_claims, the audience gate of the introspection endpoint. At the interface: scopes_to_claims (computed by the "
+            "harness from the configuration it wrote)")
 ASSUMPTIONS = ["protocol claims (iss, sub, aud, exp, iat, nonce, at_hash, c_hash, auth_time, acr, sid, jti, scope, client_id, token_class, active, …) are not user attributes"]
 
 USER = {"name": "Diana Krall", "given_name": "Diana", "family_name": "Krall", "nickname": "Dina", "email": "diana@example.org", "email_verified": False,
@@ -35,7 +38,10 @@ CLIENTS = {
     "cC": {"allowed_scopes": ["openid", "email"]},
     # explicit opt-OUT of scope-derived claims where the release point's default is on (a False that must not read as "unset")
     "cD": {"add_claims": {"always": {"userinfo": ["nickname"]}, "by_scope": {"userinfo": False, "id_token": False}}},
+    # a trusted resource server: audience enforcement at the introspection endpoint is switched off for this client only
+    "cRS": {"enforce_audience_restriction": False},
 }
+FLOW_CLIENTS = ["cA", "cB", "cC", "cD"]
 _srv = None
 
 
@@ -48,6 +54,7 @@ def make_server():
     th["id_token"].kwargs.update(copy.deepcopy(POINTS["id_token"]))
     th["access_token"].kwargs.update(copy.deepcopy(POINTS["access_token"]))
     s.get_endpoint("introspection").kwargs.update(copy.deepcopy(POINTS["introspection"]))
+    s.get_endpoint("introspection").enforce_aud_restriction = True
     for cid, extra in CLIENTS.items():
         rec = dict(ctx.cdb["client_1"], client_id=cid, redirect_uris=[(f"https://{cid.lower()}.example.com/cb", None)])
         rec.update(copy.deepcopy(extra))
@@ -73,7 +80,8 @@ def gen_flow(rng):
         claims = {}
         for point in rng.sample(["id_token", "userinfo"], rng.randint(1, 2)):
             claims[point] = {a: rng.choice(SPECS) for a in rng.sample(ATTRS + ["birthdate"], rng.randint(1, 3))}
-    return {"client": rng.choice(list(CLIENTS)), "rt": rng.choice(["code", "code", "code", "id_token"]), "scope": scope, "claims": claims}
+    return {"client": rng.choice(FLOW_CLIENTS), "rt": rng.choice(["code", "code", "code", "id_token", "code id_token", "id_token token", "code id_token token"]),
+            "scope": scope, "claims": claims, "intro": rng.sample(["owner", "outsider", "rs"], 3)}
 
 
 def cases(rng, tier):
@@ -102,19 +110,30 @@ def run_flow(s, f):
     try:
         r = az.process_request(az.parse_request(AuthorizationRequest(**args).to_dict()))
         ra = r["response_args"]
-        if f["rt"] == "id_token":
-            out["id_token"] = _user_attrs(_payload(ra["id_token"]))
+        rts = f["rt"].split(" ")
+        if "id_token" in rts:
+            # the ID token minted by the authorization endpoint
+            out["id_token" if f["rt"] == "id_token" else "id_token_front"] = _user_attrs(_payload(ra["id_token"]))
+        at = ra.get("access_token")
+        if "code" in rts:
+            tr = tk.process_request(tk.parse_request(dict(client_id=cid, client_secret=ctx.cdb[cid]["client_secret"], redirect_uri=red,
+                                                          grant_type="authorization_code", code=ra["code"])))["response_args"]
+            out["id_token"] = _user_attrs(_payload(tr["id_token"]))
+            at = tr["access_token"]
+        if at is None:
             return out
-        tr = tk.process_request(tk.parse_request(dict(client_id=cid, client_secret=ctx.cdb[cid]["client_secret"], redirect_uri=red,
-                                                      grant_type="authorization_code", code=ra["code"])))["response_args"]
-        out["id_token"] = _user_attrs(_payload(tr["id_token"]))
-        at = tr["access_token"]
         out["access_token"] = _user_attrs(_payload(at))
         u = ui.process_request(ui.parse_request({}, http_info={"headers": {"authorization": "Bearer " + at}}))["response_args"]
         out["userinfo"] = _user_attrs(u)
         out["values_ok"] = all(u[k] == USER[k] for k in u if k in USER)
-        i = it.process_request(it.parse_request({"token": at, "client_id": cid, "client_secret": ctx.cdb[cid]["client_secret"]}))["response_args"]
-        out["introspection"] = _user_attrs(i)
+        outsider = "cA" if cid != "cA" else "cC"
+        for who in f.get("intro", ["owner"]):
+            asker = {"owner": cid, "outsider": outsider, "rs": "cRS"}[who]
+            i = it.process_request(it.parse_request({"token": at, "client_id": asker, "client_secret": ctx.cdb[asker]["client_secret"]}))["response_args"]
+            if who == "owner":
+                out["introspection"] = _user_attrs(i)
+            else:
+                out["introspection_" + who] = {"active": bool(i.get("active")), "attrs": _user_attrs(i), "sub": "sub" in i}
     except Exception as e:
         out["exc"] = type(e).__name__ + ":" + str(e)[:100]
     return out
@@ -127,35 +146,52 @@ def impl(c):
     return {"aged": aged, "fresh_last": fresh}
 
 
-def resolved(point, f):
-    """(base, always, byScope, scopeClaims, requested) as the configuration says — for the CONFIGURED client record"""
+def point_of(obs_key):
+    return "id_token" if obs_key == "id_token_front" else obs_key
+
+
+def rt_only(obs_key, f):
+    """the ID token stands in for userinfo exactly when the response type is id_token alone"""
+    return obs_key == "id_token" and f["rt"] == "id_token"
+
+
+def raw_conf(obs_key, f):
+    """the configuration as written by this harness, NOT resolved: module settings, the client's add_claims entries for the point and for
+    userinfo (the only secondary point there is), the claims of the allowed scopes, the request's claims for the point"""
+    point = point_of(obs_key)
     cfg = POINTS[point]
     cl = CLIENTS[f["client"]]
-    by_scope = cfg.get("add_claims_by_scope", False)
-    always = list(cfg.get("always_add_claims", []))
-    secondary = "userinfo" if (point == "id_token" and f["rt"] == "id_token") else ""
-    if cfg.get("enable_claims_per_client"):
-        ac = cl.get("add_claims", {})
-        bs = ac.get("by_scope", {})
-        if bs:
-            v = bs.get(point)
-            if v is None and secondary:
-                v = bs.get(secondary, False)
-            if v is None:
-                v = cfg.get("add_claims_by_scope", {})
-            by_scope = v
-        always = list(ac.get("always", {}).get(point, []))
-        if secondary:
-            always += ac.get("always", {}).get(secondary, [])
+    ac = cl.get("add_claims", {})
+    bs = ac.get("by_scope", {})
     allowed = cl.get("allowed_scopes", ["openid", "profile", "email", "address", "phone", "offline_access"])
     sc = []
     for scp in f["scope"]:
         if scp in allowed:
             sc += SCOPE2CLAIMS.get(scp, [])
-    requested = (f["claims"] or {}).get(point, {})
-    return cfg.get("base_claims", {}), always, bool(by_scope), sc, requested
+    return {"base": cfg.get("base_claims", {}), "m_always": list(cfg.get("always_add_claims", [])), "m_by_scope": bool(cfg.get("add_claims_by_scope", False)),
+            "per_client": bool(cfg.get("enable_claims_per_client")), "bs_nonempty": bool(bs), "bs_point": bs.get(point), "bs_sec": bs.get("userinfo"),
+            "al_point": list(ac.get("always", {}).get(point, [])), "al_sec": list(ac.get("always", {}).get("userinfo", [])),
+            "scope_claims": sc, "requested": (f["claims"] or {}).get(point, {})}
 
 
+def resolved(obs_key, f):
+    """independent statement of the upper bound (oracle): (base, always, byScope, scopeClaims, requested)"""
+    r = raw_conf(obs_key, f)
+    secondary = rt_only(obs_key, f)
+    by_scope, always = r["m_by_scope"], r["m_always"]
+    if r["per_client"]:
+        if r["bs_nonempty"]:
+            v = r["bs_point"]
+            if v is None and secondary:
+                v = r["bs_sec"] if r["bs_sec"] is not None else False
+            if v is None:
+                v = r["m_by_scope"]
+            by_scope = v
+        always = r["al_point"] + (r["al_sec"] if secondary else [])
+    return r["base"], always, bool(by_scope), r["scope_claims"], r["requested"]
+
+
+OBS_POINTS = ("id_token_front", "id_token", "userinfo", "access_token", "introspection")
 US = "\x1f"
 
 
@@ -172,16 +208,25 @@ def _spec(k, v):
     return US.join([k, "x"])
 
 
+def _ob(x):
+    return "-" if x is None else ("1" if x else "0")
+
+
 def model_lines(c, obs):
     lines = []
     info = [US.join([k, str(v)]) for k, v in USER.items()]
     for f, o in zip(c["flows"], obs["aged"]):
-        for point in ("id_token", "userinfo", "access_token", "introspection"):
-            if point not in o:
+        for key in OBS_POINTS:
+            if key not in o:
                 continue
-            base, always, by_scope, sc, req = resolved(point, f)
-            lines.append("\t".join(["claims", "release", enc_list([_spec(k, v) for k, v in base.items()]), enc_list(always), "1" if by_scope else "0",
-                                    enc_list(sc), enc_list([_spec(k, v) for k, v in req.items()]), enc_list(info)]))
+            r = raw_conf(key, f)
+            lines.append("\t".join(["claims", "resolve", enc_list([_spec(k, v) for k, v in r["base"].items()]), enc_list(r["m_always"]), _ob(r["m_by_scope"]),
+                                    _ob(r["per_client"]), _ob(r["bs_nonempty"]), _ob(r["bs_point"]), _ob(r["bs_sec"]), enc_list(r["al_point"]),
+                                    enc_list(r["al_sec"]), enc_str(point_of(key)), _ob(rt_only(key, f)), enc_list(r["scope_claims"]),
+                                    enc_list([_spec(k, v) for k, v in r["requested"].items()]), enc_list(info)]))
+        for who, cs in (("outsider", None), ("rs", False)):
+            if "introspection_" + who in o:
+                lines.append("\t".join(["claims", "audgate", "1", _ob(cs), "0"]))
     return lines
 
 
@@ -191,13 +236,18 @@ def compare(c, obs, outs):
     for f, o in zip(c["flows"], obs["aged"]):
         if "exc" in o:
             d.append(f"flow failed: {o['exc']} {f}"); break
-        for point in ("id_token", "userinfo", "access_token", "introspection"):
-            if point not in o:
+        for key in OBS_POINTS:
+            if key not in o:
                 continue
             m = sorted(x for x in dec_list(outs[k]) if x != "sub"); k += 1
-            got = [x for x in o[point]]
+            got = [x for x in o[key]]
             if m != got:
-                d.append(f"{point} of {f}: model={m} impl={got}")
+                d.append(f"{key} of {f}: model={m} impl={got}")
+        for who in ("outsider", "rs"):
+            if "introspection_" + who in o:
+                m = outs[k] == "1"; k += 1
+                if m != o["introspection_" + who]["active"]:
+                    d.append(f"introspection by {who} of {f}: model passes={m} impl={o['introspection_' + who]}")
         if d:
             break
     return d[:1]
@@ -206,18 +256,21 @@ def compare(c, obs, outs):
 def oracle(c, obs):
     v = []
     for f, o in zip(c["flows"], obs["aged"]):
-        for point in ("id_token", "userinfo", "access_token", "introspection"):
+        for point in OBS_POINTS:
             if point not in o:
                 continue
             base, always, by_scope, sc, req = resolved(point, f)
             permitted = set(base) | set(always) | (set(sc) if by_scope else set()) | set(req)
             extra = set(o[point]) - permitted
             if extra:
-                v.append({"cls": "released-beyond-permitted", "point": point, "extra": sorted(extra)})
+                v.append({"cls": "released-beyond-permitted", "point": point, "extra": sorted(extra), "rt": f["rt"]})
+        x = o.get("introspection_outsider")
+        if x and (x["active"] or x["attrs"] or x["sub"]):
+            v.append({"cls": "released-outside-audience", "got": x, "order": f.get("intro")})
         if o.get("values_ok") is False:
             v.append({"cls": "released-value-differs"})
     last, fresh = obs["aged"][-1], obs["fresh_last"]
-    for point in ("id_token", "userinfo", "access_token", "introspection"):
+    for point in OBS_POINTS + ("introspection_outsider", "introspection_rs"):
         if point in last and point in fresh and last[point] != fresh[point]:
             v.append({"cls": "history-dependent-release", "point": point, "aged": last[point], "fresh": fresh[point]})
     return v[:2]
